@@ -155,6 +155,21 @@ func ExecSteps(env *sim.Env, root string, steps []Step, st *Stats) []StepResult 
 				c.Env = append(c.Env, "GOFILE="+s.Inv.GoFile)
 			}
 			r.Obs = env.Run(root, c)
+			if r.Obs.Status == "timeout" {
+				// the watchdog fired: once more with a doubled limit before giving up.
+				// A run that still does not end is harness trouble (exit 2), never a
+				// verdict: hangs are C14's business and a loaded machine is nobody's.
+				if st != nil {
+					st.Inc("n:watchdog_retries")
+				}
+				old := env.RunTimout
+				env2 := *env
+				env2.RunTimout = 2 * old
+				r.Obs = env2.Run(root, c)
+				if r.Obs.Status == "timeout" {
+					r.Err = fmt.Errorf("convergen run did not end within %v (twice)", env2.RunTimout)
+				}
+			}
 			if st != nil {
 				recordObs(st, r.Obs)
 			}
